@@ -335,6 +335,10 @@ def real_op(op, rec, pre, i, ctx):
         return rs.math.min(mk_fn(op['f']), reduce=op['reduce'])
     if o == 'max':
         return rs.math.max(mk_fn(op['f']), reduce=op['reduce'])
+    if o in ('variance', 'stddev', 'fvariance', 'fstddev'):
+        mod = rs.math if o in ('variance', 'stddev') else rs.math.formal
+        f = mod.variance if o.endswith('variance') else mod.stddev
+        return f(mk_fn(op['f']), reduce=op['reduce'])
     if o == 'first':
         return rs.ops.first()
     if o == 'last':
@@ -532,6 +536,7 @@ def run_plain(pipe, items, complete=True):
     def on_error(e):
         state['end'] = 'error'
         state['err'] = enc(e)
+        state['errtype'] = type(e).__name__
         state['endstep'] = state['step']
 
     def on_completed():
@@ -550,5 +555,7 @@ def run_plain(pipe, items, complete=True):
         except Exception as e:
             state['end'] = 'error'
             state['err'] = ['x', -1]
+            state['errtype'] = 'raised:' + type(e).__name__
             state['endstep'] = state['step']
-    return {'out': out, 'end': state['end'], 'err': state['err'], 'endstep': state['endstep']}
+    return {'out': out, 'end': state['end'], 'err': state['err'], 'endstep': state['endstep'],
+            'errtype': state.get('errtype')}
